@@ -385,6 +385,13 @@ def r06k(ctx, run):
     c07.r07i(ctx, run)
 
 
+def r06l(ctx, run):
+    """what the ABI layer hands Cranelift must satisfy Cranelift's own assertions: an argument passed in memory is a StructArgument whose size Cranelift
+    requires to be a multiple of 8 (fn_ty_to_abi evaluated on argument lists with a 12-byte aggregate that does not fit the registers; shared with C19 R19.e)"""
+    import c19
+    c19.r19e(ctx, run)
+
+
 def r06f(ctx, run):
     """input_snippet is total: evaluated from its source for every shape of (file length, first line, span, lines after the span) that its
     arithmetic distinguishes and for every pair of columns a position can have (0 ..= line length: the position of the newline / end of
@@ -556,6 +563,7 @@ def rules(ctx):
         Rule("R06.i", "tables filled while a statement is inferred survive the interruptions of the body's inference (shared with C09 R09.k)", 1, r06i),
         Rule("R06.j", "every cast the checker accepts is one the code generator can build (shared with C07 R07.h)", 100, r06j),
         Rule("R06.k", "every == / != the checker accepts on aggregates is built (shared with C07 R07.i)", 60, r06k),
+        Rule("R06.l", "an argument passed in memory gets a whole number of eightbytes (Cranelift asserts it); fn_ty_to_abi evaluated (shared with C19 R19.e)", 10, r06l),
         Rule("R06.h", "variants of one enum get pairwise distinct discriminants (a duplicate panics Cranelift's Switch; shared with C11 R11.d)", 1, r06h),
         Rule("R06.g", "a data object is defined once: fresh name or memoised creation at every create_global_data site", 4, r06g),
         Rule("R06.f", "the snippet renderer is total: no unsigned subtraction below zero and no slice beyond a line, for every range shape and column (newline position included)", 1, r06f),
